@@ -145,6 +145,11 @@ func registerSymAPI(e *Engine) {
 		eng.visited[key] = rem
 		return false
 	})
+	// BoundExceeded(label): the harness ran into one of its own depth bounds before
+	// reaching the state its assertions are about: an unwinding failure, never a pass.
+	e.reg(p+"BoundExceeded", func(fr *frame, args []value) value {
+		panic(pathEnd{"budget", "harness bound exceeded (unwinding failure): " + strArg(args[0])})
+	})
 	e.reg(p+"Symbolic", func(fr *frame, args []value) value { return true })
 	// Ite(c, a, b): branch-free selection for harness oracles
 	e.reg(p+"IteU64", func(fr *frame, args []value) value {
